@@ -4,7 +4,14 @@ Part A (read): the real Terminal.read_eeprom / _eeprom_read_one run over the
   roundtrip stack against the ESC model's SII interface (4- or 8-byte reads);
   every category-list shape (distinct types x word lengths, contents
   position-coded, identity words from the alphabet) is enumerated; busy
-  durations at the three polling loops are explorer choices (k = 2).
+  durations at the three polling loops are explorer choices (k = 2).  The
+  type alphabet contains the NOP category 0 (with 0, 1, 2.. words, at every
+  position of the list): only 0xffff ends the list.
+Part A2 (read again): the same walks as the SECOND read_eeprom of a Terminal
+  object that has read another image before (FIRSTS: other lengths, other
+  categories, garbage or 0xff behind the end marker; the stream lengths
+  cover every residue modulo 8).  Expected: what a fresh object reads, i.e.
+  the image.
 Part B (layout): Terminal.parse_sync_managers over every sequence of 0..4
   sync managers of the four modes, and Terminal.parse_pdos (EEPROM source)
   over every PDO category shape (1..2 PDOs x 0..3 entries from bit entries,
@@ -13,6 +20,10 @@ Part B (layout): Terminal.parse_sync_managers over every sequence of 0..4
 Part C (chain): apply_eeprom + parse_pdos on complete images, both sources:
   EEPROM categories 50/51 (no mailbox) and the SDO objects 0x1C12/0x1C13 read
   with the real sdo_read from the SDO server of mc/coe.py (mailbox).
+Part C2 (chain again): the chain as the second one of a Terminal object that
+  went through it on another complete image (other shape / source / category
+  list) before; judged like a fresh object.  (parse_sync_managers twice on one
+  object: part B, "sm2".)
 """
 import asyncio
 import itertools
@@ -26,15 +37,20 @@ from ebpfcat.ethercat import EtherCat, SyncManager, Terminal
 
 PROP = "C17"
 LEVEL = "model_checking"
-RULE = ("A: category lists of 0..3 distinct types from 8 x word lengths "
+RULE = ("A: category lists of 0..3 distinct types from 8 (NOP = 0 among "
+        "them, at every position) x word lengths "
         "{0,1,2,3,4,5,9} x read size 4/8 x busy polls <= 2 per polling loop "
-        "(deviation-bounded); B: all sync-manager sequences (<= 4 entries, 4 "
+        "(deviation-bounded); A2: the same lists read as the second "
+        "read_eeprom of a Terminal object after one of 8 first images (all "
+        "of them for <= 1 category, one in turn for longer lists); B: all sync-manager sequences (<= 4 entries, 4 "
         "modes) and all PDO category shapes (1..2 PDOs x 0..3 entries of 8 "
         "kinds, second PDO assigned or not; plus gaps of {1,4,8,12,13,16} "
         "bits at bit positions {0,3,4} and 3/4-bit fields: 15 kinds for "
         "pairs of <= 2 entries and single PDOs of 3, and prefix x gap x "
         "suffix PDOs); C: complete images through "
-        "apply_eeprom + parse_pdos from EEPROM and from SDO; non-trivial = "
+        "apply_eeprom + parse_pdos from EEPROM and from SDO; C2: the chain "
+        "as the second one of a Terminal object after another image; "
+        "non-trivial = "
         "at least one category / sync manager / mapped entry; distinct = "
         "distinct (shape, choices)")
 
@@ -761,6 +777,9 @@ def run(ctx):
                             "at a time"))
     res.sample(dict(part="B-pdo", shape=[["b1", "pad", "u16"], ["u8"]],
                     unassigned=True))
+    res.sample(dict(part="A2", shape=[[0, 0], [41, 3]], eight=True, first=3,
+                    meaning="a zero-length NOP category, then 3 words; read "
+                            "by an object that has read FIRSTS[3] before"))
     res.assumptions += [
         "read_eeprom has to finish within 16 frames per 8 bytes of image "
         "(a reader needs at most 11 with busy <= 2 polls)",
@@ -776,7 +795,17 @@ def run(ctx):
         "no room in the process data; the SDO source lists assigned PDOs "
         "only",
         "busy deviations: bound 3 for <= 1 category, 1..2 for 2 categories, "
-        "0..1 for 3 categories (quick: 2 for <= 1 category and a slice)"]
+        "0..1 for 3 categories (quick: 2 for <= 1 category and a slice)",
+        "category type 0 is the NOP category of the SII and may carry any "
+        "number of words, also none, anywhere in the list; only the type "
+        "0xffff ends the list (an all-zero header is never used as an end: "
+        "every image ends with 0xffff); what follows the end marker in the "
+        "image means nothing (0xff or garbage)",
+        "A2 / C2: reading (applying, parsing) again on the same Terminal "
+        "object has to give what a fresh object gives for the image now in "
+        "the terminal; the first read runs without busy polls, only the "
+        "second one is explored (busy deviations <= 1 / 0); A2 for 3 "
+        "categories covers every second list"]
     return res
 
 
